@@ -22,7 +22,7 @@ def run(ctx, proof):
     ctx.extra["rule"] = ("random grammars rich in probe commands (top level, inside words, under [], ..., |, ||, behind definitions and @bash "
                          "definitions), outputs incl. spaces / tabs / option-looking candidates; command lines as in C01; non-trivial = "
                          "distinct command line on which at least one command ran")
-    n = 640 if ctx.thorough() else 48
+    n = 400 if ctx.thorough() else 48
     c01.check_grammars(ctx, n, own="C17", p_cmd=0.4, p_sub=0.3, spaces_in_output=True, shared=True, twins=True)
     ctx.extra["programs"] = n
     ctx.extra["disagreements_checked"] = ctx.evaluations
